@@ -2,6 +2,7 @@ package mon
 
 import (
 	"fmt"
+	"os"
 	"reflect"
 	"sort"
 	"strings"
@@ -77,15 +78,15 @@ func emittedKeys(cfg *lib.Cfg, ns []*gpb.Notification, listNames []string, paren
 
 func runC16(r *lib.Run) {
 	r.Rule = "every keyed and ordered list of every configuration x a grid of key tuples drawn per key type (extremes, 0, negatives, small and large decimals, hostile strings, every enum/identity, each union member, leafref keys, multi-key products): two entries are created through the Go API, the key strings ygot itself emits (TogNMINotifications, Diff from empty) are fed to GetNode, SetNode on an empty root and DeleteNode; non-trivial = list has a non-string key or a hostile string; distinct by list+key tuple"
-	domain := 8
+	domain := 40
 	if !r.Quick() {
-		domain = 60
+		domain = 400
 	}
 	for _, cfg := range cfgsFor(r, quick3) {
 		rootEntry := cfg.RootEntry()
 		var sites []*listSite
-		sites = append(sites, findListSites(cfg, r.Seed, lib.KList, domain)...)
-		sites = append(sites, findListSites(cfg, r.Seed, lib.KOrdered, domain)...)
+		sites = append(sites, findListSitesOpt(cfg, r.Seed, lib.KList, domain, true)...)
+		sites = append(sites, findListSitesOpt(cfg, r.Seed, lib.KOrdered, domain, true)...)
 		var prevRestore func()
 		for _, s := range sites {
 			if s.node.Keyless {
@@ -116,6 +117,9 @@ func runC16(r *lib.Run) {
 				other := s.tuples[(ti+1)%len(s.tuples)]
 				kc := keyClassOf(s, t)
 				r.Hit("keytype:" + kc)
+				if os.Getenv("VERIF_VERBOSE") != "" {
+					fmt.Println("C16 tuple", cfg.Name, s.lname, t.id)
+				}
 				r.Hit("list:" + cfg.Name + ":" + s.lname)
 				r.Case(cfg.Name+s.lname+t.id, true)
 				w := func(more map[string]interface{}) map[string]interface{} {
@@ -188,7 +192,16 @@ func runC16(r *lib.Run) {
 								}
 							}
 						}
-						r.Violate("emitted-key-count:"+name, kc, fmt.Sprintf("%d distinct key maps emitted for 2 entries: %v%s", len(em), keysOf(em), dbg), w(map[string]interface{}{}))
+						ekc := kc
+						for _, tp := range []keyTuple{t, other} {
+							for i, kf := range s.kfs {
+								cv, _ := lib.CanonScalar(tp.params[i], true)
+								if kf.YType.Kind.String() == "union" && (cv == "int64:0" || cv == "uint64:0" || cv == `string:` || cv == "bool:false" || cv == "float64:0") {
+									ekc = "union-key-holding-zero-value"
+								}
+							}
+						}
+						r.Violate("emitted-key-count:"+name, ekc, fmt.Sprintf("%d distinct key maps emitted for 2 entries: %v%s", len(em), keysOf(em), dbg), w(map[string]interface{}{}))
 						continue
 					}
 					found := map[uintptr]string{}
@@ -245,7 +258,22 @@ func runC16(r *lib.Run) {
 							for _, n := range cfg.Nodes(nroot) {
 								if n.IsEntry && n.Field == s.f {
 									created = append(created, s.elemKeys(cfg, n.V))
+									// the map key under which the entry is stored must agree with its key leaves
+									if s.f.Kind == lib.KList && n.Parent != nil {
+										lm := n.Parent.V.Elem().Field(s.f.Idx)
+										for _, mk := range lm.MapKeys() {
+											if lm.MapIndex(mk).Pointer() != n.V.Pointer() {
+												continue
+											}
+											if exp, ok := lib.MapKeyFor(lm.Type().Key(), n.V, s.kfs); ok && !reflect.DeepEqual(mk.Interface(), exp.Interface()) {
+												r.Violate("setnode-map-key-differs-from-key-leaves", kc, fmt.Sprintf("SetNode via %s stored the entry under map key %v but its key leaves are %s", ks, mk.Interface(), s.elemKeys(cfg, n.V)), w(map[string]interface{}{"key": ks}))
+											}
+										}
+									}
 								}
+							}
+							if os.Getenv("VERIF_VERBOSE") != "" {
+								fmt.Println("C16 setnode", ks, created, wantKeys)
 							}
 							if len(created) != 1 || created[0] != wantKeys {
 								r.Violate("setnode-created-keys", kc, fmt.Sprintf("SetNode via %s created entries %v, original keys %s", ks, created, wantKeys), w(map[string]interface{}{"key": ks}))
